@@ -269,7 +269,9 @@ type c19Run struct {
 	stuck   bool
 }
 
-const c19FlushTimeout = 4 * time.Second
+// generous: on a starved machine a goroutine hand-over may take long; a loop that has not
+// taken a command for this long is reported as not coming back
+const c19FlushTimeout = 15 * time.Second
 
 // c19LoopBlockedInSend reports whether some goroutine sits in a channel send inside
 // (*state).send -- an observation of where the loop goroutine is, taken from the runtime
@@ -537,7 +539,7 @@ func TestVerifC19PubSub(t *testing.T) {
 			}
 		}
 		summary = append(summary, map[string]int{"sched": si, "runs": done, "distinct": len(seen)})
-		if nstuck >= 6 {
+		if nstuck >= 3 {
 			break
 		}
 	}
